@@ -43,6 +43,13 @@ func c07layouter(c *mon.Ctx) {
 		r.Shuffle(len(gids), func(i, j int) { gids[i], gids[j] = gids[j], gids[i] })
 		nIn := 4 + r.IntN(8)
 		alpha := &otlmini.Alphabet{In: append([]glyph.ID(nil), gids[:nIn]...), Out: append([]glyph.ID(nil), gids[nIn:nIn+4]...)}
+		if r.IntN(6) == 0 {
+			// a substitution may produce any glyph id: the tables do not know
+			// how many glyphs the font has (the reader delivers such tables)
+			ng := env.font.NumGlyphs()
+			alpha.Out[r.IntN(len(alpha.Out))] = glyph.ID([]int{ng, ng + 1 + r.IntN(100), 0xFFFF}[r.IntN(3)])
+			k.Class("layouter:substitute-beyond-the-last-glyph")
+		}
 		gd := &gdef.Table{GlyphClass: classdef.Table{}, MarkAttachClass: classdef.Table{}}
 		for _, g := range alpha.All() {
 			if cl := []uint16{0, 1, 1, 2, 3, 3}[r.IntN(6)]; cl != 0 {
